@@ -73,6 +73,37 @@ def cases(shard, rnd):
             gv.array(rnd, 0, 3, width=4), rnd, 0.9)}
     yield {'wrap': 'table', 'v': {}}
     yield {'wrap': 'array', 'v': []}
+    # live dictionary: every constant of the tree under test as a value, a
+    # key, a string / array length, a decimal part, an instant
+    from ..gen import magic
+    mp = magic.pool()
+    sweep = [('value', c) for c in mp.ints_in(-2**63, 2**63 - 1)]
+    sweep += [('nested', c) for c in mp.ints_in(-2**63, 2**63 - 1)]
+    sweep += [('value', f) for f in mp.floats]
+    sweep += [('table', {'k': m, m[:128]: m}) for m in mp.strs]
+    sweep += [('table', {m[:128]: rnd.choice([True, 1, None, 'v'])
+                         for m in rnd.sample(mp.strs, min(4, len(mp.strs)))})
+              for _ in range(60)]
+    sweep += [('value', bytearray(b)) for b in mp.bytes]
+    sweep += [('value', gv.rstr_bytes(rnd, ln, 'ascii'))
+              for ln in mp.lengths if ln <= 70000]
+    sweep += [('value', bytearray(ln)) for ln in mp.lengths if ln <= 70000]
+    sweep += [('array', [rnd.choice([1, 'x', None, True])] * ln)
+              for ln in mp.lengths if ln <= 600]
+    sweep += [('table', {'k%d' % j: j for j in range(ln)})
+              for ln in mp.lengths if ln <= 600]
+    sweep += [('value', gv.rdatetime(rnd, c))
+              for c in mp.ints_in(0, 2**32 - 1)]
+    for c in mp.ints_in(-2**31, 2**31 - 1):
+        sc = rnd.choice(mp.ints_in(0, 255) or [0])
+        sweep.append(('value', gv.D((1 if c < 0 else 0,
+                                     tuple(map(int, str(abs(c)))), -sc))))
+    for sc in mp.ints_in(0, 255):
+        sweep.append(('value', gv.D((rnd.choice([0, 1]), (1, 5), -sc))))
+    for w, v in sweep:
+        k += 1
+        if k % n == i:
+            yield {'wrap': w, 'v': v, 'why': 'magic'}
     for _ in range(shard['n_random']):
         w = rnd.choice(['value', 'table', 'array'])
         if w == 'table':
